@@ -374,11 +374,20 @@ class PageTemplate(BaseTemplate):
         for attr in (
             'trim_attribute_space',
             'implicit_i18n_translate',
-            'strict'
+            'strict',
+            'mode',
+            'default_expression',
+            'enable_data_attributes',
+            'enable_comment_interpolation',
+            'restricted_namespace',
+            'boolean_attributes',
+            'implicit_i18n_attributes',
         ):
             v = getattr(self, attr)
+            if isinstance(v, (set, frozenset, list, tuple)):
+                v = sorted(v)
             digest.update(
-                (";{}={}".format(attr, str(v))).encode('ascii')
+                (";{}={}".format(attr, str(v))).encode('utf-8')
             )
 
         return digest.hexdigest()[:32]
